@@ -63,19 +63,37 @@ def build_coq(clean=False, targets=None):
         return p.returncode == 0, (p.stdout + p.stderr)[-3000:]
 
 
-def forbidden_tokens():
-    hits = []
-    d = coqio.THEORIES
-    for fn in sorted(os.listdir(d)):
-        if not fn.endswith(".v"):
+def dep_closure(mods):
+    """PyDcop modules reachable from `mods` through `From PyDcop Require ...` lines."""
+    import re
+    seen, todo = set(), list(mods)
+    while todo:
+        m = todo.pop()
+        if m in seen:
             continue
-        txt = open(os.path.join(d, fn)).read()
+        path = os.path.join(coqio.THEORIES, m + ".v")
+        if not os.path.exists(path):
+            continue
+        seen.add(m)
+        txt = open(path).read()
+        for line in re.findall(r"From\s+PyDcop\s+Require\s+(?:Import|Export)?\s*([^.]*)\.", txt):
+            todo.extend(line.split())
+        for line in re.findall(r"Require\s+(?:Import|Export)?\s+((?:PyDcop\.\w+\s*)+)\.", txt):
+            todo.extend(x.split(".")[-1] for x in line.split())
+    return sorted(seen)
+
+
+def forbidden_tokens(mods):
+    """scan the property's own dependency closure (not other people's files)"""
+    import re
+    hits = []
+    for m in dep_closure(mods):
+        txt = open(os.path.join(coqio.THEORIES, m + ".v")).read()
         # strip comments (non-nested is enough for the tokens searched)
-        import re
         txt2 = re.sub(r"\(\*.*?\*\)", "", txt, flags=re.S)
         for tok in FORBIDDEN:
             if tok in txt2:
-                hits.append("%s: %s" % (fn, tok.strip()))
+                hits.append("%s.v: %s" % (m, tok.strip()))
     return hits
 
 
@@ -213,7 +231,7 @@ def pipeline(mod, pid, tier, seed, args, work, t0):
             discharged.append(t)
         else:
             undischarged.append((t, st))
-    bad_tokens = forbidden_tokens()
+    bad_tokens = forbidden_tokens([prop_mod] + list(getattr(mod, "COQ_REQUIRE", [])))
     if bad_tokens:
         undischarged.append(("<forbidden tokens>", ("forbidden", bad_tokens)))
     axioms_used = sorted({a for t in theorems for a in (assum.get(t, ("", []))[1] if assum.get(t, ("",))[0] == "axioms" else [])})
